@@ -87,8 +87,26 @@ def decide(spec, tier, seed):
     # correspondence + direct evaluation of the property on the real code
     rng = random.Random(seed * 1000003 + int(pid[1:]))
     results = []
+    leanchecker = None
+    if tier == "thorough" and lean_ok:
+        with core.Lock("lake"):
+            try:
+                rc_lc, out_lc = core.run(["lake", "env", "leanchecker", spec.lean_module], cwd=core.LEAN, timeout=1800)
+            except Exception as ex:  # timeout
+                rc_lc, out_lc = 1, str(ex)
+        leanchecker = "ok" if rc_lc == 0 else "FAILED: " + out_lc[-800:]
+        if rc_lc != 0:
+            broken.append({"kind": "broken-obligation", "obligation": "leanchecker %s" % spec.lean_module, "detail": out_lc[-1500:]})
     if ok and os.path.exists(core.DRIVER):
-        for st in spec.streams(tier, rng):
+        streams = list(spec.streams(tier, rng))
+        cpath = os.path.join(core.VERIF, "corpus", pid + ".txt")
+        if os.path.exists(cpath):
+            groups = [[l for l in blk.splitlines() if l.strip() and not l.startswith("#")] for blk in open(cpath).read().split("\n\n")]
+            groups = [g for g in groups if g]
+            if groups:
+                from .specs import Stream
+                streams.insert(0, Stream("corpus", None, compare=spec.compare_default, groups=groups))
+        for st in streams:
             r = core.run_stream(st.name, st.requests, workdir, compare=st.compare, weight=st.weight, groups=getattr(st, 'groups', None))
             if r.mismatches and st.refine:
                 r.mismatches = st.refine(r.mismatches)
@@ -180,6 +198,7 @@ def decide(spec, tier, seed):
             "broken": broken[:10],
             "notes": notes,
             "lake_build_s": round(lake_s, 1),
+            "leanchecker": leanchecker,
             "repo_head": repo_head(),
         },
         "assumptions": spec.assumptions,
